@@ -4,6 +4,7 @@ from __future__ import print_function
 import json
 import os
 import random
+import re
 import sys
 import threading
 import time
@@ -510,6 +511,34 @@ def repo_test_traces(chk, prop):
                         {"test": tests_of[r["id"]], "deps": r["deps"], "events": r["ev"][:pos][-25:]})
 
 
+def tlaps_abs(chk):
+    """the TLAPS proof (spec/MPRunAbsProof.tla) that MPRunAbs guarantees, for any number of commands and histories of any length, that a finished
+    command has finished dependencies, the term of their current values as its value, and stays finished with it; checked afresh (no proof cache)"""
+    import shutil
+    import subprocess
+    import time
+
+    if not shutil.which("tlapm"):
+        chk.note("tlapm not found: the unbounded proof of the abstract engine (MPRunAbsProof) was not re-checked")
+        return
+    d = core.scratch_dir("mpv-tlaps-")
+    for fn in ("MPRunAbs.tla", "MPRunAbsProof.tla"):
+        shutil.copy(os.path.join(core.VERIF, "spec", fn), d)
+    t0 = time.time()
+    try:
+        p = subprocess.run(["tlapm", "--threads", "4", "--cleanfp", "MPRunAbsProof.tla"], cwd=d, stdout=subprocess.PIPE, stderr=subprocess.STDOUT, timeout=600)
+        out = p.stdout.decode("utf-8", "replace")
+    except subprocess.TimeoutExpired:
+        out = "timeout"
+    m = re.search(r"All (\d+) obligations? proved", out)
+    if not m:
+        sys.stderr.write("MACHINERY FAILURE: tlapm did not prove MPRunAbsProof\n%s\n" % out[-2000:])
+        sys.exit(2)
+    chk.cov["tlc_runs"].append({"run": "tlapm MPRunAbsProof (THEOREM Safety: ASpec => []Inv; THEOREM FinishedForever)", "distinct_states": 0, "states_generated": 0, "depth": 0,
+                                "wall_s": round(time.time() - t0, 1), "constants": "none: Cmds is an arbitrary set (unbounded proof); %s proof obligations, all proved" % m.group(1), "coverage": None})
+    shutil.rmtree(d, ignore_errors=True)
+
+
 def check_C01(tier):
     chk = core.Check("C01", tier)
     core.sut()
@@ -531,6 +560,7 @@ def check_C01(tier):
                         "the tracer wraps Command.result, Command.validate_params and every registered execute()"]
     decide(chk, "C01", jobs, variants, max_replays=70000 if tier == "quick" else 600000)
     repo_test_traces(chk, "C01")
+    tlaps_abs(chk)
     return chk.finish()
 
 
